@@ -12,6 +12,10 @@ moment they are permitted) and acquire/release calls.
                              always have different tokens (`default_tokens_fresh`), hence never exclude each other
 * `holding_blocks_copies` / `holding_does_not_block_others`   the mutual-exclusion reading, `threading.Lock` trusted
 * `gc_safe`                  a weak entry can only disappear when no live object holds its lock
+* `late_copy_after_first_instance_died`   the first instance dies, copies survive, any permitted clearing happens, a
+                             pickle is loaded: the late copy holds the survivors' lock
+* `instance_registry_breaks_sharing`      why the weak value must be the lock: a registry that keeps the first *instance*
+                             (what-if model `stepI`) loses the entry with that instance and hands out a second lock
 -/
 namespace Dask.C53
 open Dask.LockReg
@@ -291,5 +295,101 @@ theorem runEager_inv (s : State) (evs : List Event) (h : Inv s) : Inv (runEager 
       | none => exact h
       | some x => exact step_inv _ _ (step_inv _ _ h)
     | _ => exact step_inv _ _ h
+
+theorem step_gc_objs (s : State) (t : Token) : (step s (.gc t)).objs = s.objs ∧ (step s (.gc t)).nextObj = s.nextObj := by
+  simp only [step]
+  cases s.reg t with
+  | none => exact ⟨rfl, rfl⟩
+  | some l => simp only; split <;> exact ⟨rfl, rfl⟩
+
+theorem run_gcs_objs (ts : List Token) : ∀ (s : State), (run s (ts.map Event.gc)).objs = s.objs := by
+  induction ts with
+  | nil => intro s; rfl
+  | cons t ts ih =>
+    intro s
+    simp only [List.map_cons, run, List.foldl_cons]
+    have := ih (step s (.gc t))
+    simp only [run] at this
+    rw [this]
+    exact (step_gc_objs s t).1
+
+theorem run_append (s : State) (a b : List Event) : run s (a ++ b) = run (run s a) b := by
+  simp [run, List.foldl_append]
+
+/-- **late_copy_after_first_instance_died.** The first instance created for a token (or any other instance `o`) dies
+while a copy `x` survives; the collector may then clear whatever weak entries it is allowed to clear (`gcs`, any
+tokens, any number); a pickle carrying the token is loaded afterwards. The late copy holds the lock of the surviving
+copy — the registry entry is kept alive by EVERY live copy (its referent is the lock they all hold), not by the first
+instance. -/
+theorem late_copy_after_first_instance_died (evs : List Event) (o : Nat) (x : Obj) (gcs : List Token)
+    (hx : x ∈ (run init evs).objs) (hne : x.id ≠ o) :
+    ∃ y, y ∈ (run init (evs ++ [.drop o] ++ gcs.map Event.gc ++ [.load x.token])).objs ∧
+      y.id = (run init evs).nextObj ∧ y.lock = x.lock := by
+  have hx' : x ∈ (run init (evs ++ [.drop o] ++ gcs.map Event.gc)).objs := by
+    rw [run_append, run_gcs_objs, run_append]
+    simp only [run, List.foldl_cons, List.foldl_nil, step, List.mem_filter, decide_eq_true_eq]
+    exact ⟨hx, hne⟩
+  obtain ⟨y, hy, hid, hl⟩ := load_shares_with_live (evs ++ [.drop o] ++ gcs.map Event.gc) x hx'
+  refine ⟨y, hy, ?_, hl⟩
+  rw [hid]
+  -- neither `drop` nor `gc` allocates an object identity
+  have h1 : ∀ (ts : List Token) (s : State), (run s (ts.map Event.gc)).nextObj = s.nextObj := by
+    intro ts
+    induction ts with
+    | nil => intro s; rfl
+    | cons t ts ih =>
+      intro s
+      simp only [List.map_cons, run, List.foldl_cons]
+      have := ih (step s (.gc t))
+      simp only [run] at this
+      rw [this]
+      exact (step_gc_objs s t).2
+  rw [run_append, h1, run_append]
+  rfl
+
+/-- non-vacuity: `A = SerializableLock(7)`, `B = copy(A)`, `del A`, gc, `C = loads(pickle of token 7)`: `C.lock is B.lock` -/
+example :
+    ((run init [.new (some 7), .copyOf 0, .drop 0, .gc (.explicit 7), .load (.explicit 7)]).objs.map
+      fun x => (x.id, x.lock)) = [(2, 0), (1, 0)] := by decide
+
+/-! ### what if the weak registry held the first *instance* instead of the lock (NOT the code)
+
+`_locks[token] = self` and `self.lock = _locks[token].lock`: the entry is then kept alive by the first instance only.
+CPython clears it as soon as that instance dies, although copies still hold the lock. -/
+
+/-- registry: token ↦ identity of the owning instance -/
+structure StateI where
+  reg : List (Token × Nat)
+  objs : List Obj
+  nextLock : Nat
+  nextObj : Nat
+
+def initI : StateI := { reg := [], objs := [], nextLock := 0, nextObj := 0 }
+
+def constructI (s : StateI) (t : Token) : StateI :=
+  match (s.reg.find? (·.1 = t)).bind fun e => s.objs.find? (·.id = e.2) with
+  | some owner => { s with objs := ⟨s.nextObj, t, owner.lock⟩ :: s.objs, nextObj := s.nextObj + 1 }
+  | none =>
+    { reg := (t, s.nextObj) :: s.reg.filter (·.1 ≠ t), objs := ⟨s.nextObj, t, s.nextLock⟩ :: s.objs,
+      nextLock := s.nextLock + 1, nextObj := s.nextObj + 1 }
+
+/-- explicit-token constructions, copies and deaths (weak entry cleared when its owner dies) -/
+def stepI (s : StateI) : Event → StateI
+  | .new (some n) => constructI s (.explicit n)
+  | .load t => constructI s t
+  | .copyOf o =>
+    match s.objs.find? (·.id = o) with
+    | some x => constructI s x.token
+    | none => s
+  | .drop o => { s with objs := s.objs.filter (·.id ≠ o), reg := s.reg.filter (·.2 ≠ o) }
+  | _ => s
+
+/-- **instance_registry_breaks_sharing.** With the instance-holding registry the same five-step history ends with two
+live objects that carry the same token and hold DIFFERENT locks. -/
+theorem instance_registry_breaks_sharing :
+    ∃ x y, x ∈ ([Event.new (some 7), .copyOf 0, .drop 0, .load (.explicit 7)].foldl stepI initI).objs ∧
+      y ∈ ([Event.new (some 7), .copyOf 0, .drop 0, .load (.explicit 7)].foldl stepI initI).objs ∧
+      x.token = y.token ∧ x.lock ≠ y.lock :=
+  ⟨⟨2, .explicit 7, 1⟩, ⟨1, .explicit 7, 0⟩, by decide, by decide, rfl, by decide⟩
 
 end Dask.C53
